@@ -128,6 +128,56 @@ def default_dict_step(which, preset):
     return out
 
 
+def _scale_float_arrays(c, f):
+    """Rescale by f and reverse every float ndarray among the arguments (incl. TT-cores in lists), IN PLACE (same objects)."""
+    n = 0
+    def walk(x):
+        nonlocal n
+        if isinstance(x, np.ndarray) and x.dtype.kind == "f" and x.flags.writeable and x.size:
+            x *= f
+            # also reverse along the mode axis (cores) / the first axis: a pure rescaling leaves argmax / sampling results unchanged
+            if x.ndim == 3:
+                x[...] = x[:, ::-1, :].copy()
+            elif x.ndim >= 1:
+                x[...] = x[::-1].copy()
+            n += 1
+        elif isinstance(x, list):
+            for y in x:
+                walk(y)
+    for a in c.args:
+        walk(a)
+    for k, a in c.kwargs.items():
+        if k not in ("info", "cache"):
+            walk(a)
+    return n
+
+
+def mutate_rerun(op, preset, ctx):
+    """Call, then change the caller's arrays IN PLACE (same list / ndarray objects, new contents) and call again: the second
+    answer must be the one for the new contents, i.e. equal to a call on freshly built objects with those contents."""
+    c = ac.build(op, 101 + preset, preset)
+    if c.seed_kw is not None:
+        c.kwargs[c.seed_kw] = SEEDS[preset % len(SEEDS)]
+    if c.mutable or "info" in c.kwargs or op in ("cross", "cross_act", "rand_custom", "func_int_general", "getter", "cdf_getter"):
+        return                                    # callbacks / filled dictionaries: covered by their own properties
+    def run(call):
+        try:
+            return digest_of(call.run())
+        except Exception as e:  # noqa: BLE001
+            return "raised:" + type(e).__name__
+    run(c)
+    if _scale_float_arrays(c, 0.5) == 0:
+        return
+    second = run(c)
+    f = ac.build(op, 101 + preset, preset)
+    if f.seed_kw is not None:
+        f.kwargs[f.seed_kw] = SEEDS[preset % len(SEEDS)]
+    _scale_float_arrays(f, 0.5)
+    fresh = run(f)
+    ctx.check(second == fresh, f"{op}: after the caller changed its arrays in place, the call still answers for the old contents "
+                               "(or differs from a call on fresh objects with the same contents)", op=op, preset=preset, second=second, fresh=fresh)
+
+
 def run_history(steps, ctx):
     """Pure function of the step list: executes the history and checks every re-occurrence."""
     table = {}
@@ -136,10 +186,16 @@ def run_history(steps, ctx):
     calls = []
     nontrivial = False
 
-    def do_call(op, preset, si, spelling):
+    def do_call(op, preset, si, spelling, bseed=None, variant=None):
         nonlocal nontrivial
-        c = ac.build(op, 101 + preset, preset)
-        key = (op, preset)
+        if bseed is None:
+            c = ac.build(op, 101 + preset, preset)
+            key = (op, preset)
+        else:
+            # "neighbour" calls: the SAME base data (builder seed) with another argument variant, so that calls share part of
+            # their arguments (same tensor with another k, same grid with another order m, ...)
+            c = ac.build(op, bseed, variant)
+            key = (op, "v", bseed, variant)
         gen_obj = None
         if c.seed_kw is not None:
             s = SEEDS[si % len(SEEDS)]
@@ -148,7 +204,7 @@ def run_history(steps, ctx):
                 c.kwargs[c.seed_kw] = gen_obj
             else:
                 c.kwargs[c.seed_kw] = s
-            key = (op, preset, s, "gen" if gen_obj is not None else "int")
+            key = key + (s, "gen" if gen_obj is not None else "int")
         g0 = global_state_bytes()
         try:
             res = c.run()
@@ -182,6 +238,11 @@ def run_history(steps, ctx):
         elif kind == "repeat":
             if calls:
                 do_call(*calls[stp[1] % len(calls)])
+        elif kind == "callv":
+            calls.append((stp[1], 0, stp[4], stp[5], stp[2], stp[3]))
+            do_call(stp[1], 0, stp[4], stp[5], stp[2], stp[3]); epoch += 1
+        elif kind == "mutate_rerun":
+            mutate_rerun(stp[1], stp[2], ctx); epoch += 1; ctx.inner(1)
         elif kind == "default_dict":
             which, preset = stp[1], stp[2]
             g0 = global_state_bytes()
@@ -243,6 +304,14 @@ def custom(tier, hseed, shard, nshards, stats):
         def call_any(self, op, preset, si, sp):
             self.steps.append(["call", op, preset, si, sp])
 
+        @rule(op=st.sampled_from(all_ops), bseed=st.integers(200, 203), v=st.integers(0, 11), si=st.integers(0, 2), sp=st.sampled_from(["int", "gen"]))
+        def call_neighbour(self, op, bseed, v, si, sp):
+            self.steps.append(["callv", op, bseed, v, si, sp])
+
+        @rule(op=st.sampled_from(all_ops), preset=st.integers(0, NPRESET - 1))
+        def mutate_and_rerun(self, op, preset):
+            self.steps.append(["mutate_rerun", op, preset])
+
         @rule(j=st.integers(0, 40))
         def repeat(self, j):
             self.steps.append(["repeat", j])
@@ -278,6 +347,20 @@ def enum_sweep(tier, shard, nshards):
             j += 1
 
 
+def enum_neighbours(tier, shard, nshards):
+    """For every catalogue entry: all argument variants on the same base data in ascending order, then in descending order, then
+    every variant once more - a result may not depend on which neighbouring calls came before; plus the in-place mutation probe."""
+    j = 0
+    nv = 8 if tier == "quick" else 16
+    for op in ac.OPS:
+        for bseed in (200, 201):
+            if j % nshards == shard:
+                up = [["callv", op, bseed, v, 0, "int"] for v in range(nv)]
+                steps = up + up[::-1] + [["poison", 1, 2]] + up + [["mutate_rerun", op, p] for p in range(NPRESET)]
+                yield {"steps": steps}
+            j += 1
+
+
 def enum_default_pairs(tier, shard, nshards):
     """Every ordered pair (and triple with a repeat) of argument combinations of the routines with default dictionaries."""
     j = 0
@@ -291,6 +374,7 @@ def enum_default_pairs(tier, shard, nshards):
 
 
 SUBCHECKS = [
+    Sub("neighbours", prop_history, enumerate=enum_neighbours, exhaustive=True),
     Sub("default_dict_pairs", prop_history, enumerate=enum_default_pairs, exhaustive=True),
     Sub("histories", prop_history, custom=custom),
     Sub("sweep", prop_history, enumerate=enum_sweep, exhaustive=True),
